@@ -33,6 +33,11 @@ def payload_of(rec):
     return rec.get("sizes", []), rec.get("ids", [])
 
 
+def refused_connects(r):
+    """sockets whose connect() was refused (inproc keeps its own, narrower socket-type table: C05-b)"""
+    return {x["sock"] for x in r["records"] if x.get("ev") == "ret" and x.get("op") == "connect" and x.get("res", "ok") != "ok"}
+
+
 def check_router_run(ctx, sc, r):
     name = sc["name"]
     backend = "io_uring" if sc.get("uring") else "tokio"
@@ -67,8 +72,12 @@ def check_router_run(ctx, sc, r):
                 if p2 and ident == p2.encode():
                     V("wrong-identity-prefix", "the anonymous peer %s was reported with another peer's identity %r" % (sender, ident))
     # 2. echoes: each peer gets back exactly its own payloads, in order, unchanged
+    refused = refused_connects(r)
     for pi, (ty, pid) in enumerate(peers):
         nm = "p%d" % pi
+        if nm in refused:
+            ctx.note("%s: peer %s (%s) not judged, its connect() was refused over this transport" % (name, nm, ty))
+            continue
         sent = [x for x in r["records"] if x.get("ev") == "call" and x.get("sock") == nm and x.get("op") in ("send", "send_mp")]
         if ty == "DEALER":
             got = [x for x in S.rets(r, "recv_mp", sock=nm)]
@@ -239,6 +248,9 @@ def run(ctx):
             if r0["panics"]:
                 ctx.violation("C11:panic", "%s: %s" % (sc["name"], r0["panics"][0]), rp)
             for peer in ("req", "dlr"):
+                if peer in refused_connects(r0):
+                    ctx.note("%s: peer %s not judged, its connect() was refused over this transport" % (sc["name"], peer))
+                    continue
                 got = [x for x in S.rets(r0, "recv_mp", sock=peer)]
                 for k, sh in enumerate(REPLY_SHAPES):
                     x = got[k] if k < len(got) else {"res": "missing"}
